@@ -97,6 +97,8 @@ class BufMachine(Interp):
         hd["memref.memory_space_cast"] = self._h_alias
         hd["snax.layout_cast"] = self._h_alias
         hd["memref.dim"] = self._h_dim
+        hd["memref.load"] = self._h_load
+        hd["memref.store"] = self._h_store
         hd["memref.get_global"] = self._h_get_global
         hd["memref.global"] = lambda op: None
         hd["snax.cluster_sync_op"] = self._h_barrier
@@ -219,6 +221,28 @@ class BufMachine(Interp):
 
     def _h_alias(self, op):
         self.env[op.results[0]] = self.get(op.operands[0])
+
+    def _cell(self, op, m, idx_vals):
+        idx = tuple(int(i) for i in idx_vals)
+        if len(idx) != m.data.ndim or any(i < 0 or i >= n for i, n in zip(idx, m.data.shape)):
+            raise MachineError(f"{op.name} index {idx} outside {tuple(m.data.shape)}")
+        return idx
+
+    def _h_load(self, op):
+        m = self.get(op.operands[0])
+        idx = self._cell(op, m, [self.get(i) for i in op.operands[1:]])
+        sl = tuple(slice(i, i + 1) for i in idx)
+        self.on_access(op, MRef(m.root, m.data[sl], m.ids[sl]), "R")
+        self.set_results(op, [int(m.data[idx])])
+
+    def _h_store(self, op):
+        v = self.get(op.operands[0])
+        m = self.get(op.operands[1])
+        idx = self._cell(op, m, [self.get(i) for i in op.operands[2:]])
+        sl = tuple(slice(i, i + 1) for i in idx)
+        self.on_access(op, MRef(m.root, m.data[sl], m.ids[sl]), "W")
+        v = int(v)
+        m.data[idx] = v if v < (1 << 63) else v - (1 << 64)
 
     def _h_ucc(self, op):
         if len(op.operands) == 1 and len(op.results) == 1:
